@@ -9,11 +9,12 @@ def run(pid, mode, tier, seed, per_quick, per_thorough):
     per = per_quick if tier == "quick" else per_thorough
     jobs = []
     # the harness is multi-threaded itself; 6 TSan + 3 ASan processes keep the machine busy without starving the threads
+    modes = mode if isinstance(mode, (list, tuple)) else [mode]
     for w in range(6):
-        jobs.append(dict(name="h_threads_tsan", args=[mode], rc_params="seed=%d max_success=%d" % (seed * 1000 + w + 1, per)))
-    for w in range(3):
-        jobs.append(dict(name="h_threads", args=[mode], rc_params="seed=%d max_success=%d" % (seed * 1000 + 50 + w, per)))
-    res = harness.run_many(jobs, workers=9)
+        jobs.append(dict(name="h_threads_tsan", args=[modes[w % len(modes)]], rc_params="seed=%d max_success=%d" % (seed * 1000 + w + 1, per)))
+    for w in range(3 if len(modes) == 1 else 4):
+        jobs.append(dict(name="h_threads", args=[modes[w % len(modes)]], rc_params="seed=%d max_success=%d" % (seed * 1000 + 50 + w, per)))
+    res = harness.run_many(jobs, workers=10)
     ev, nt, classes, samples = harness.merge_stats(res)
     violations = []
     for r in res:
@@ -24,7 +25,7 @@ def run(pid, mode, tier, seed, per_quick, per_thorough):
         classes["runs:" + r["name"]] = classes.get("runs:" + r["name"], 0) + 1
         if not bad:
             continue
-        text = r["fail"] or ("%s %s\n" % (mode, " ".join(r["races"][:3])))
+        text = r["fail"] or ("%s %s\n" % (r["args"][0], " ".join(r["races"][:3])))
         violations.append(harness.save_fail(pid, r["name"], text, {"args": r["args"], "rc_params": r["rc_params"], "rc": r["rc"],
                                                                    "races": r["races"][:5], "ub": r["ub"], "asan": r["asan"],
                                                                    "stdout": r["stdout"][-1500:], "stderr": r["stderr"][-2500:]}))
